@@ -389,6 +389,7 @@ class C20Check(Check):
             "pool_kind": kind,
             "cand": g.pick(["none", "none", "idx", "idx_lab"]),
             "pd_n_jobs": f.pick([None, None, None, None, 1, 4, 50]),
+            "str_labels": rng.fork("str").chance(0.15),
             "n_jobs": int(nj),
             "cpu": int(cpu),
             "mode": mode,
@@ -412,15 +413,17 @@ class C20Check(Check):
     def _objects(self, sc):
         from skactiveml.pool import ParallelUtilityEstimationWrapper
 
-        inner = R.build_strategy(sc["entry"], sc["seed"])
+        st = bool(sc.get("str_labels")) and R.ENTRIES[sc["entry"]]["task"] == "clf"
+        overrides = {"classes": [R.label_name(c) for c in sc["classes"]], "missing_label": None} if st else None
+        inner = R.build_strategy(sc["entry"], sc["seed"], overrides=overrides)
         arg, fit = R.model_arg(sc["entry"])
         kw = {}
         if arg:
-            kw[arg] = R.model(sc["model"], classes=sc["classes"], seed=sc["model_seed"])
+            kw[arg] = R.model(sc["model"], classes=sc["classes"], seed=sc["model_seed"], str_labels=st)
         pd = {"backend": "verif_sim"}
         if sc.get("pd_n_jobs") is not None:
             pd["n_jobs"] = int(sc["pd_n_jobs"])  # tolerated (with a warning): the wrapper's own n_jobs decides
-        wrapper = ParallelUtilityEstimationWrapper(query_strategy=inner, n_jobs=sc["n_jobs"], parallel_dict=pd, random_state=sc["seed"])
+        wrapper = ParallelUtilityEstimationWrapper(query_strategy=inner, n_jobs=sc["n_jobs"], parallel_dict=pd, random_state=sc["seed"], **({"missing_label": None} if st else {}))
         return inner, wrapper, kw
 
     def execute(self, sc, keep_log=False):
@@ -433,13 +436,19 @@ class C20Check(Check):
         X = np.array(sc["X"], dtype=float)
         if sc.get("int_X"):
             X = np.round(X * 3).astype(np.int64)
-        y = to_y(sc["y0"])
-        unl = np.where(np.isnan(y))[0]
+        y_num = to_y(sc["y0"])
+        unl = np.where(np.isnan(y_num))[0]
+        y = y_num
+        if sc.get("str_labels") and R.ENTRIES[sc["entry"]]["task"] == "clf":
+            # class names are strings, a missing label is None (strategy, wrapper, model and label vector alike)
+            y = np.full(y_num.shape, None, dtype=object)
+            y[~np.isnan(y_num)] = [R.label_name(v) for v in y_num[~np.isnan(y_num)]]
+            ctx.probe("string_class_labels")
         cand = None if sc["cand"] == "none" else unl[:: 2 if len(unl) > 3 else 1].copy()
         if sc["cand"] == "idx_lab":
             # an index set may also name samples that already carry a label (strategies that score samples
             # independently accept arbitrary index sets)
-            lab = np.where(~np.isnan(y))[0]
+            lab = np.where(~np.isnan(y_num))[0]
             cand = np.sort(np.concatenate([cand, lab[:: 2 if len(lab) > 2 else 1]])).astype(int)
             if len(lab):
                 ctx.probe("labeled_index_candidates")
@@ -575,7 +584,7 @@ class C20Check(Check):
             try:
                 from skactiveml.utils import check_random_state, simple_batch
 
-                fresh = simple_batch(ref_u.copy(), check_random_state(sc["seed"], int(np.sum(np.isnan(y))) + 1), batch_size=1)
+                fresh = simple_batch(ref_u.copy(), check_random_state(sc["seed"], int(np.sum(np.isnan(y_num))) + 1), batch_size=1)
                 inner_pick_is_seed_function = int(np.asarray(fresh).ravel()[0]) == ri
             except Exception:
                 inner_pick_is_seed_function = False
